@@ -14,10 +14,11 @@
    threads are told apart by the identity test of remove_callback (live pika threads have
    distinct pika ids, threads without a pika id distinct OS ids); C14_ids_faithful_needed shows
    the hypothesis cannot be dropped. *)
-From Coq Require Import List NArith Bool.
+From Coq Require Import List NArith Bool Lia.
 From Pika Require Import Base.Conc Gen.GenStopBits Model.StopWord Model.StopState
   Model.StopHandles Proofs.StopFlagsProofs Proofs.StopStateProofs Proofs.StopHandlesProofs
-  Proofs.StopCallbacksAbs Proofs.StopCallbacksProofs.
+  Proofs.StopCallbacksAbs Proofs.StopCallbacksProofs Proofs.StopProgressStep Proofs.StopProgressProofs
+  Proofs.StopCtorProofs Proofs.StopSourcesProofs.
 Import ListNotations.
 
 (* the regenerated layout: four disjoint fields filling the 64-bit word *)
@@ -190,6 +191,148 @@ Example C14_ids_faithful_needed :
 Proof.
   split; [|vm_compute; reflexivity].
   intros H. specialize (H 0%nat 1%nat). cbn in H. discriminate (H eq_refl).
+Qed.
+
+(* ------------------------------------------------------------------------------------------
+   Part 1c: progress (as safety of stuck states) and the "already requested" constructor path.
+   [stuck P c]: no thread has a step that changes anything, whatever the weak-CAS oracle answers.
+   [wedged g l]: the thread sits at a reference-count step whose guard fails (the counts_fit side
+   condition of the model: the packed counters neither overflow nor drop below the references
+   that are held; discharged for handle histories in part 2). *)
+
+(* request_stop, the stop_callback constructor and ~stop_callback always return: in every
+   reachable stuck configuration every thread has finished its program — no request_stop /
+   add_callback / remove_callback caller is stuck in the lock spin and no destructor is stuck in
+   the wait loop of remove_callback.  (Callback bodies are finite lists of operations but may nest
+   without bound; a non-terminating nest is not a stuck configuration.) *)
+Theorem C14_stop_calls_return : forall P sched w0 progs srcs, ids_faithful P -> good_init w0 ->
+  let c := st_run P sched w0 progs srcs in
+  stuck P c -> (forall t, wedged (fst c) (snd c t) = false) ->
+  forall t, thread_done (snd c t) = true.
+Proof. exact stop_calls_return. Qed.
+Print Assumptions C14_stop_calls_return.
+
+(* the same, read the other way: a configuration with a thread inside a lock spin or inside the
+   wait loop of remove_callback always has an enabled step of some thread *)
+Theorem C14_no_blocked_call : forall P sched w0 progs srcs, ids_faithful P -> good_init w0 ->
+  let c := st_run P sched w0 progs srcs in
+  (forall t, wedged (fst c) (snd c t) = false) ->
+  forall t, (spinpc (pc (snd c t)) = true \/ exists k, pc (snd c t) = RWait k) -> ~ stuck P c.
+Proof. exact no_blocked_call. Qed.
+Print Assumptions C14_no_blocked_call.
+
+(* non-vacuity: the final configuration of C14_callbacks_example (destructor waited for the
+   callback running on the other thread) is stuck, nobody is wedged, everybody is done *)
+Example C14_stop_calls_return_example :
+  let P := {| cb_body := fun _ => [OpTokCopy]; pika_id := fun _ => None; os_id := fun t => t |} in
+  let progs := fun t => match t with 0%nat => [OpAdd 0; OpRem 0] | 1%nat => [OpReq] | _ => [] end in
+  let srcs := fun t => match t with 1%nat => 1%nat | _ => 0%nat end in
+  let w0 := (3 + source_ref_increment)%N in
+  let s := map (fun t => (t, false)) [0;0;0;0;0; 1;1;1;1;1; 0;0;0;0;0;0; 1;1;1;1;1;1; 0;0]%nat in
+  let c := st_run P s w0 progs srcs in
+  stuck P c /\ (forall t, wedged (fst c) (snd c t) = false) /\ thread_done (snd c 0%nat) = true /\
+  cb_dtor (cb (fst c) 0%nat) = 2%nat.
+Proof.
+  Transparent W. cbv zeta. split; [|split; [|split]].
+  - intros t o. destruct t as [|[|t]]; destruct o; vm_compute; reflexivity.
+  - intros t. destruct t as [|[|t]]; vm_compute; reflexivity.
+  - vm_compute. reflexivity.
+  - vm_compute. reflexivity.
+Qed.
+
+(* the side condition cannot be dropped without a hypothesis that ties the initial word to the
+   handles held by the threads: with a word that holds no source but a thread that believes it
+   owns one, ~stop_source wedges at the source-count decrement *)
+Example C14_stop_calls_return_counts_needed :
+  let P := {| cb_body := fun _ => []; pika_id := fun _ => None; os_id := fun t => t |} in
+  let progs := fun t => match t with 0%nat => [OpSrcDrop] | _ => [] end in
+  let srcs := fun t => match t with 0%nat => 1%nat | _ => 0%nat end in
+  let c := st_run P [(0%nat, false)] 1%N progs srcs in
+  ids_faithful P /\ good_init 1%N /\ stuck P c /\ thread_done (snd c 0%nat) = false /\
+  wedged (fst c) (snd c 0%nat) = true.
+Proof.
+  Transparent W. cbv zeta. split; [intros t1 t2; cbn; tauto|]. split; [vm_compute; repeat split; reflexivity|].
+  split; [|split; vm_compute; reflexivity].
+  intros t o. destruct t as [|t]; destruct o; vm_compute; reflexivity.
+Qed.
+
+(* "immediately in the constructor if it already was": if stop has been requested before the
+   construction of stop_callback k starts (state after s1), then in every later state (after
+   s1 ++ s2) k is not and never was linked into callbacks_ / dequeued / registered, and as soon as
+   its constructor has returned its callback has run exactly once, inside the constructor
+   (cb_inctor), on the constructing thread (every EvRun k event carries inctor = true and the
+   thread recorded in cb_cthr). *)
+Theorem C14_callback_runs_in_ctor_if_requested : forall P s1 s2 w0 progs srcs k,
+  ids_faithful P -> good_init w0 ->
+  let g1 := fst (st_run P s1 w0 progs srcs) in
+  let g2 := fst (st_run P (s1 ++ s2) w0 progs srcs) in
+  w_stop_requested (word g1) = true -> cb_ctor (cb g1 k) = 0 ->
+  cb_queued (cb g2 k) = false /\ ~ In k (cbs g2) /\ cb_deq (cb g2 k) = false /\
+  (1 <= cb_ctor (cb g2 k) -> cb_reg (cb g2 k) = false) /\
+  cb_runs (cb g2 k) <= 1 /\
+  (cb_ctor (cb g2 k) = 2 -> cb_runs (cb g2 k) = 1 /\ cb_inctor (cb g2 k) = true) /\
+  (forall t b, In (EvRun k t b) (log g2) -> b = true /\ cb_cthr (cb g2 k) = Some t).
+Proof. exact callback_runs_in_ctor_if_requested. Qed.
+Print Assumptions C14_callback_runs_in_ctor_if_requested.
+
+(* non-vacuity: thread 1 requests stop (s1), then thread 0 constructs callback 0 (s2) *)
+Example C14_callback_in_ctor_example :
+  let P := {| cb_body := fun _ => [OpTokCopy]; pika_id := fun _ => None; os_id := fun t => t |} in
+  let progs := fun t => match t with 0%nat => [OpAdd 0] | 1%nat => [OpReq] | _ => [] end in
+  let srcs := fun t => match t with 1%nat => 1%nat | _ => 0%nat end in
+  let w0 := (3 + source_ref_increment)%N in
+  let s1 := map (fun t => (t, false)) [1;1;1;1]%nat in
+  let s2 := map (fun t => (t, false)) [0;0;0;0;0;0;0;0]%nat in
+  let g1 := fst (st_run P s1 w0 progs srcs) in
+  let c2 := st_run P (s1 ++ s2) w0 progs srcs in
+  w_stop_requested (word g1) = true /\ cb_ctor (cb g1 0%nat) = 0%nat /\
+  cb_ctor (cb (fst c2) 0%nat) = 2%nat /\ cb_runs (cb (fst c2) 0%nat) = 1%nat /\
+  cb_inctor (cb (fst c2) 0%nat) = true /\ In (EvRun 0 0 true) (log (fst c2)) /\
+  thread_done (snd c2 0%nat) = true.
+Proof. Transparent W. vm_compute. repeat split; try reflexivity. right. left. reflexivity. Qed.
+
+(* the source field of the word in the concurrent model is an exact count of the stop_source
+   handles: [held l] = stop_sources owned by a thread as the word sees them (hsrc, minus the one
+   whose count ~stop_source has already taken back), [base] = stop_sources owned outside the
+   modelled threads, threads >= nthr own none ([good_srcs]: the initial word agrees with that) *)
+Theorem C14_sources_exact : forall P sched w0 progs srcs nthr base, good_init w0 ->
+  good_srcs nthr base w0 srcs ->
+  let c := st_run P sched w0 progs srcs in
+  w_sources (word (fst c)) = (base + N.of_nat (sumf (fun t => held (snd c t)) nthr))%N /\
+  forall t, nthr <= t -> held (snd c t) = 0.
+Proof. exact sources_exact. Qed.
+Print Assumptions C14_sources_exact.
+
+(* the "registration refused because not stop_possible" outcome of add_callback (the third
+   alternative of C14_callback_exactly_once): the read of lock_if_not_stopped that sends the
+   constructor of k to its refused exit (ALoad / ACas / ASpin -> ARelease, nothing ran) happens
+   only when stop was not requested and no stop_source for the state exists anywhere *)
+Theorem C14_refused_only_if_no_source : forall P sched w0 progs srcs nthr base, good_init w0 ->
+  good_srcs nthr base w0 srcs ->
+  let c := st_run P sched w0 progs srcs in
+  forall t o k,
+    (pc (norm (snd c t)) = ALoad k \/ (exists old, pc (norm (snd c t)) = ACas k old) \/
+     pc (norm (snd c t)) = ASpin k) ->
+    pc (snd (st_tstep P o t (fst c) (snd c t))) = ARelease k ->
+    w_stop_requested (word (fst c)) = false /\ w_sources (word (fst c)) = 0%N /\ base = 0%N /\
+    forall t', held (snd c t') = 0.
+Proof. exact refused_only_if_no_source. Qed.
+Print Assumptions C14_refused_only_if_no_source.
+
+(* non-vacuity: (a) the lock-step harness's initial words satisfy good_srcs (thread 1 owns the only
+   source); (b) a state with two token owners and no source: the constructor of callback 0 reads
+   the word at ALoad and is refused *)
+Example C14_refused_example :
+  let P := {| cb_body := fun _ => []; pika_id := fun _ => None; os_id := fun t => t |} in
+  good_srcs 2 0 (3 + source_ref_increment)%N (fun t => match t with 1%nat => 1%nat | _ => 0%nat end) /\
+  let progs := fun t => match t with 0%nat => [OpAdd 0] | _ => [] end in
+  let c := st_run P [(0%nat, false); (0%nat, false)] 2%N progs (fun _ => 0%nat) in
+  good_init 2%N /\ good_srcs 1 0 2%N (fun _ => 0%nat) /\ pc (norm (snd c 0%nat)) = ALoad 0 /\
+  pc (snd (st_tstep P false 0 (fst c) (snd c 0%nat))) = ARelease 0.
+Proof.
+  Transparent W. cbv zeta. split; [split; [intros [|[|t]] H; try lia; reflexivity|vm_compute; reflexivity]|].
+  split; [vm_compute; repeat split; reflexivity|]. split; [split; [reflexivity|vm_compute; reflexivity]|].
+  split; vm_compute; reflexivity.
 Qed.
 
 (* ------------------------------------------------------------------------------------------
